@@ -398,6 +398,9 @@ func (m *v6mon) fail(sig, f string, a ...any) {
 }
 
 func (m *v6mon) touch(val, duid string, now time.Time) {
+	if m.draining {
+		return // the probe's own fresh clients do not make a case non-trivial
+	}
 	t := m.touched[val]
 	if t == nil {
 		t = map[string]bool{}
@@ -1028,8 +1031,31 @@ func (x *v6run) drain() {
 	now := time.Now()
 	x.logf("-- drain probe at %s", now.Format("15:04:05"))
 	x.mon.draining = true
+	if !x.drainRound(0, now) {
+		return
+	}
+	// a binding's lifetime as the client sees it may end before the server's record of it does (one
+	// timestamp per client): only what was given up explicitly has to be available right now
+	x.demand(now, false)
+	if len(x.mon.viol) > 0 {
+		return
+	}
+	// second probe: after one more valid lifetime nothing is bound or advertised any more,
+	// so every value that was ever handed out (and not declined) must be obtainable again
+	time.Sleep(x.g.valid + 61*time.Second)
+	synctest.Wait()
+	now = time.Now()
+	x.logf("-- second drain probe at %s (one valid lifetime + 61 s later)", now.Format("15:04:05"))
+	x.mon.obtained = map[string]bool{}
+	if !x.drainRound(1000, now) {
+		return
+	}
+	x.demand(now, true)
+}
+
+func (x *v6run) drainRound(base int, now time.Time) bool {
 	limit := len(x.g.order) + 3
-	for i := 0; i < limit; i++ {
+	for i := base; i < base+limit; i++ {
 		duidB := []byte{0, 3, 0, 1, 0x02, 0xff, 0, 0, byte(i >> 8), byte(i)}
 		label := fmt.Sprintf("f%d", i)
 		o := v6op{Kind: "solicit", Rapid: true, NA: x.g.cfg.HasNA, PD: x.g.cfg.HasPD, IAID: 1}
@@ -1037,11 +1063,11 @@ func (x *v6run) drain() {
 		rs, pan, err := x.deliver(msg)
 		if pan != nil {
 			x.mon.fail(sigV6Panic, "drain SOLICIT panicked: %v", pan)
-			return
+			return false
 		}
 		if err != nil {
 			x.mon.fail("C02/harness/transport", "%v", err)
-			return
+			return false
 		}
 		n := 0
 		for _, r := range rs {
@@ -1052,18 +1078,22 @@ func (x *v6run) drain() {
 		}
 		if len(x.mon.viol) > 0 {
 			x.logf("%s SOLICIT rapid -> %s", label, fmtV6Replies(rs))
-			return
+			return false
 		}
 		if n == 0 {
-			x.logf("%s SOLICIT rapid -> %s: pools exhausted after %d fresh clients", label, fmtV6Replies(rs), i)
+			x.logf("%s SOLICIT rapid -> %s: pools exhausted after %d fresh clients", label, fmtV6Replies(rs), i-base)
 			break
 		}
 	}
 	x.mon.checkTable(x.srv.VerifLeases())
 	if len(x.mon.viol) > 0 {
-		return
+		return false
 	}
 	x.logf("drain obtained %d values", len(x.mon.obtained))
+	return true
+}
+
+func (x *v6run) demand(now time.Time, second bool) {
 	for _, v := range x.g.order {
 		if x.mon.obtained[v] || x.mon.declAny[v] {
 			continue
@@ -1073,11 +1103,11 @@ func (x *v6run) drain() {
 		switch {
 		case st == nil:
 		case st.kind == "bound":
-			if now.After(st.expiry) {
+			if second && now.After(st.expiry) {
 				reason = "expired"
 			}
 		case st.kind == "offered":
-			if now.After(st.expiry) {
+			if second && now.After(st.expiry) {
 				reason = "abandoned-advertise"
 			}
 		case st.kind == "cancelled":
@@ -1088,8 +1118,12 @@ func (x *v6run) drain() {
 		if reason == "" {
 			continue
 		}
-		x.mon.fail(sigV6NotAvail+reason, "%s (%s; last held/advertised by %s at %s, lifetime ended %s) is not handed out to any of the fresh clients that exhausted the pools at %s; pools %+v",
-			v, reason, st.label, st.at.Format("15:04:05"), st.expiry.Format("15:04:05"), now.Format("15:04:05"), fmtV6Pools(x.srv.VerifPools()))
+		which := "the"
+		if second {
+			which = "the second set of"
+		}
+		x.mon.fail(sigV6NotAvail+reason, "%s (%s; last held/advertised by %s at %s, lifetime ended %s) is not handed out to any of %s fresh clients that exhausted the pools at %s; pools %s",
+			v, reason, st.label, st.at.Format("15:04:05"), st.expiry.Format("15:04:05"), which, now.Format("15:04:05"), fmtV6Pools(x.srv.VerifPools()))
 	}
 }
 
@@ -1107,6 +1141,7 @@ func fmtV6Pools(p dhcpv6.VerifPoolState) string {
 }
 
 type v6result struct {
+	deadAt  int
 	viol    []violation
 	log     []string
 	classes []string
@@ -1129,9 +1164,11 @@ func execV6InBubble(n *v6net, cfg v6cfg, ops []v6op, allowKF bool) v6result {
 	}
 	x.logf("address pool %v, prefix pool %v delegating /%d, preferred=%ds valid=%ds, clients=%d, values=%d", g.naNet, g.pdNet, g.delegLen, cfg.Pref, cfg.Valid, cfg.K, len(g.order))
 	ok := true
-	for _, o := range ops {
+	deadAt := -1
+	for i, o := range ops {
 		if !x.step(o) {
 			ok = false
+			deadAt = i
 			break
 		}
 	}
@@ -1154,7 +1191,7 @@ func execV6InBubble(n *v6net, cfg v6cfg, ops []v6op, allowKF bool) v6result {
 	for i := range cls {
 		cls[i] = "v6:" + cls[i]
 	}
-	return v6result{viol: m.viol, log: x.log, classes: cls, nt: m.nt}
+	return v6result{deadAt: deadAt, viol: m.viol, log: x.log, classes: cls, nt: m.nt}
 }
 
 func finishV6(t vstat.Fataler, kind string, cfg v6cfg, ops []v6op, res v6result) {
@@ -1229,15 +1266,18 @@ func v6Alphabet(k int) []v6op {
 	for c := 0; c < k; c++ {
 		a = append(a,
 			v6op{Kind: "solicit", C: c, NA: true, PD: true, IAID: 1, Rapid: true},
-			v6op{Kind: "request", C: c, NA: true, PD: true, IAID: 1},
-			v6op{Kind: "renew", C: c, NA: true, PD: true, IAID: 1},
 			v6op{Kind: "release", C: c, NA: true, PD: true, IAID: 1},
 		)
 		if k == 2 {
-			a = append(a, v6op{Kind: "solicit", C: c, NA: true, PD: true, IAID: 1}, v6op{Kind: "decline", C: c, NA: true, IAID: 1})
+			a = append(a, v6op{Kind: "request", C: c, NA: true, PD: true, IAID: 1}, v6op{Kind: "decline", C: c, NA: true, IAID: 1})
 		}
 	}
-	a = append(a, v6op{Kind: "advance", Delta: "valid"})
+	if k == 2 {
+		a = append(a, v6op{Kind: "solicit", C: 0, NA: true, PD: true, IAID: 1})
+	} else {
+		a = append(a, v6op{Kind: "request", C: 0, NA: true, PD: true, IAID: 1})
+	}
+	a = append(a, v6op{Kind: "renew", C: 0, NA: true, PD: true, IAID: 1}, v6op{Kind: "advance", Delta: "valid"})
 	return a
 }
 
@@ -1263,8 +1303,13 @@ func runV6Exhaustive(t *testing.T, nw *v6net, k, depth int) {
 	for i := 0; i < depth; i++ {
 		total *= n
 	}
+	pow := make([]int, depth+1)
+	pow[0] = 1
+	for j := 1; j <= depth; j++ {
+		pow[j] = pow[j-1] * n
+	}
 	idx := make([]int, depth)
-	done := 0
+	done, pruned := 0, 0
 	const batch = 2000
 	for start := shard * batch; start < total; start += shards * batch {
 		end := start + batch
@@ -1277,7 +1322,7 @@ func runV6Exhaustive(t *testing.T, nw *v6net, k, depth int) {
 		}
 		var results []one
 		synctest.Test(t, func(t *testing.T) {
-			for s := start; s < end; s++ {
+			for s := start; s < end; {
 				v := s
 				for i := depth - 1; i >= 0; i-- {
 					idx[i] = v % n
@@ -1287,7 +1332,17 @@ func runV6Exhaustive(t *testing.T, nw *v6net, k, depth int) {
 				for i, j := range idx {
 					ops[i] = alpha[j]
 				}
-				results = append(results, one{ops, execV6InBubble(nw, cfg, ops, true)})
+				res := execV6InBubble(nw, cfg, ops, true)
+				results = append(results, one{ops, res})
+				next := s + 1
+				if res.deadAt >= 0 && res.deadAt < depth-1 {
+					next = (s/pow[depth-1-res.deadAt] + 1) * pow[depth-1-res.deadAt]
+					if next > end {
+						next = end
+					}
+					pruned += next - s - 1
+				}
+				s = next
 			}
 		})
 		for _, r := range results {
@@ -1295,7 +1350,8 @@ func runV6Exhaustive(t *testing.T, nw *v6net, k, depth int) {
 			done++
 		}
 	}
-	vstat.Note(fmt.Sprintf("v6-exhaustive-k%d-depth%d", k, depth), map[string]any{"alphabet": len(alpha), "sequences_total": total, "sequences_this_shard": done, "shards": shards})
+	vstat.Note(fmt.Sprintf("v6-exhaustive-k%d-depth%d", k, depth), map[string]any{"alphabet": len(alpha), "sequences_total": total, "executed_this_shard": done,
+		"pruned_this_shard_same_prefix_as_a_known_finding": pruned, "shards": shards})
 	vstat.Exhaustive(true)
 }
 
